@@ -213,6 +213,12 @@ func c16WKBody(w c16WKSpec) (body []byte, names bool) {
 	if w.Extra == "after" || w.Extra == "both" {
 		after = `,"z.other":"v"`
 	}
+	if w.Extra == "expiry-members" {
+		// members spelled like the fields of the library's result type: the document names a server,
+		// it has no say over how long the answer is kept
+		before = `"CacheExpiresAt":4102444800,`
+		after = `,"cacheexpiresat":4102444800,"cache_expires_at":4102444800,"NewAddress":"evil.example"`
+	}
 	switch w.Doc {
 	case "ok":
 		doc = "{" + before + `"m.server":` + c16JSONString(w.Delegate) + after + "}"
